@@ -174,6 +174,9 @@ def gen_config(rng, allow_uri_append=False, allow_static_param=True, rsa=None):
         submit = "/" + _word(rng, 4, 12)
     verb_get = rng.choice(["GET", "GET", "GET", "POST", "PUT", "FETCH"])
     verb_post = rng.choice(["POST", "POST", "POST", "GET", "PUT", "SUBMIT"])
+    if verb_get != verb_post and rng.random() < 0.3:
+        # routing is by verb AND prefix: with different verbs the submit URI may coincide with (or extend) a get URI
+        submit = rng.choice(uris) + rng.choice(["", "", ".s"])
     body_ok_get = verb_get not in ("GET",)
     body_ok_post = verb_post not in ("GET",)
     cfg = {
